@@ -166,6 +166,9 @@ _UF_NUM = {
     "Cbrt": lambda x: math.copysign(abs(x) ** (1 / 3), x),
     "Round": lambda x: float(np.round(x)),
     "Exp2": lambda x: 2.0 ** x,
+    "Zeta": lambda a, b: float(__import__("scipy.special", fromlist=["zeta"]).zeta(a, b)),
+    "Digamma": lambda x: float(__import__("scipy.special", fromlist=["digamma"]).digamma(x)),
+    "Igamma": lambda a, x: float(__import__("scipy.special", fromlist=["gammainc"]).gammainc(a, x)),
 }
 
 
@@ -264,6 +267,11 @@ def _eval_node(t, a, env):
     if k == Z.Z3_OP_NOT:
         return not a[0]
     if k == Z.Z3_OP_EQ:
+        if isinstance(a[0], float) or isinstance(a[1], float):
+            x, y = float(a[0]), float(a[1])
+            if math.isnan(x) or math.isnan(y):
+                return False
+            return x == y or abs(x - y) <= 1e-5 * max(1.0, abs(x), abs(y))
         return a[0] == a[1]
     if k == Z.Z3_OP_DISTINCT:
         return len(set(a)) == len(a)
